@@ -14,7 +14,8 @@ integer values: every value is a term over the parameters (locals are substitute
 vanish) together with its Rust integer type.  What can end the call early is an EFFECT in program order:
   * `e?` on a Result / Option ↦ `match e with | none => .ok none | some v<k> => …`  (v<k> numbered in program order),
   * a GUARD (`debug_assert!`, an unchecked `+ - *` whose result leaves the type in profile debug, a zero divisor, `MIN / -1`)
-    ↦ `if <guard fails> then .panic … else`; the guards between two `?` are sorted and de-duplicated.
+    ↦ `if <guard fails> then .panic … else`; the guards between two `?` are sorted, and a guard that was already checked earlier
+    on the path is dropped.
 Anything outside the reading table is a translation ERROR (the definition becomes a `String`, the message goes to
 `seeknum_errors`, whose obligation is `= []`): never skipped silently.
 """
@@ -77,6 +78,7 @@ class Eval(object):
         self.steps = []                   # ("guard", cond, msg) | ("bind", var, term)
         self.nv = 0
         self.used_ranges = []             # generic parameters whose range is needed
+        self.seen = set()                 # guards already established on the path
 
     # ---- helpers
     def ty_of(self, tynode):
@@ -96,6 +98,10 @@ class Eval(object):
             self.used_ranges.append(ty)
 
     def guard(self, cond, msg):
+        # a guard that was already checked earlier on the path (same condition over the same immutable terms) cannot fire again
+        if (cond, msg) in self.seen:
+            return
+        self.seen.add((cond, msg))
         self.steps.append(("guard", cond, msg))
 
     def bind(self, term):
@@ -627,7 +633,7 @@ HEADER = """/-
     a / b, a %% b ↦ GUARD `b = 0` (every profile), for a signed type GUARD `a = lo ∧ b = -1`, and Int.tdiv a b / Int.tmod a b (truncation toward zero)
     debug_assert!(a < b) ↦ GUARD `p = .debug ∧ ¬ (a < b)`;  .map_err(|_| E) / .ok_or(E) ↦ the identity on Option;  Ok(x) ↦ some x;  Err(E) ↦ none
     e? ↦ `match e with | none => .ok none | some v<k> => …` (k in program order);  GUARDS ↦ `if <guard> then .panic … else`, those between two `?`
-      sorted and de-duplicated;  locals are substituted (a `let` leaves no trace);  result: Out (Option <value>)
+      sorted, a guard already checked earlier on the path dropped;  locals are substituted (a `let` leaves no trace);  result: Out (Option <value>)
     `impl<C: StreamCipher> StreamCipher for &mut C`: each method must be ONE call `C::m(params…)` ↦ the row (method, m, parameters, arguments)
       and `fun C_m => C_m` applied to the arguments (references are transparent: `&mut &mut C` derefs to `&mut C`)
 -/
